@@ -245,6 +245,23 @@ class Totality:
                     break
         return guards
 
+    @staticmethod
+    def _operand_bits(view, op):
+        """Bit width of an integer operand (through one deref of a reference local)."""
+        if op.get("o") == "const":
+            return ir.INT_BITS.get(op.get("ty")) if isinstance(op.get("ty"), str) else None
+        if op.get("o") not in ("copy", "move"):
+            return None
+        ty = view.local_ty(op["l"])
+        for e in op["p"]:
+            if e == "deref" and ty.get("k") in ("ref", "ptr"):
+                ty = ty["t"]
+            else:
+                return None
+        if ty.get("k") == "prim":
+            return ir.INT_BITS.get(ty.get("n"))
+        return None
+
     def _site_guard(self, view, a, st, site):
         """The panic condition of the site itself as a parameter comparison, when it has that form:
         bounds check idx >= len, slice[..end] with end > len, split_at(mid) with mid > len."""
@@ -287,6 +304,20 @@ class Totality:
                     tn = view.local_tyname(o["l"])
                 elif o.get("o") == "const" and isinstance(o.get("ty"), str):
                     tn = tn or o["ty"]
+            if t["op"] in ("Shl", "Shr"):
+                # `a << b` panics iff b >= width(a); b itself, or b == C - x for an entry value x
+                width = self._operand_bits(view, t["a"])
+                if width is None:
+                    return None
+                if kb is not None:
+                    return ("Ge", kb, ("c", width), True)
+                k = a.operand_key(st, t["b"])
+                sy = st.sym.get(k) if k is not None else None
+                if sy is not None and sy[0] == "sub":
+                    px = param_key(view, a, sy[2])
+                    if px is not None:
+                        return ("Le", px, ("c", sy[1] - width), True)
+                return None
             rng = absint.ty_range(tn) if tn else None
             if rng is None or rng[0] != 0 or ka is None or kb is None:
                 return None
@@ -1366,6 +1397,41 @@ class Totality:
                     len_iv = (lk[1], lk[1]) if lk[0] == "const" else a.get(st, lk)
                     if self._le_len(a, st, args[1], len_iv, None if lk[0] == "const" else lk):
                         return "D-len: mid <= len"
+            return None
+        if name.endswith("::copy_within") and len(args) == 3:
+            # <[T]>::copy_within(src, dest): src.start <= src.end <= len and dest + (src.end - src.start) <= len
+            recv = args[0]
+            if recv.get("o") not in ("copy", "move") or recv["p"]:
+                return None
+            lk = a.len_key(recv["l"], st)
+            ra = self._range_arg(view, a, st, args[1])
+            if lk is None or ra is None:
+                return None
+            len_iv = (lk[1], lk[1]) if lk[0] == "const" else a.get(st, lk)
+            len_key = None if lk[0] == "const" else lk
+            if len_iv is None:
+                return None
+            kind, s_op, e_op = ra
+            s_iv = (0, 0) if s_op is None else a.eval_operand(st, s_op)[0]
+            e_iv = len_iv if e_op is None else a.eval_operand(st, e_op)[0]
+            d_iv = a.eval_operand(st, args[2])[0]
+            if s_iv is None or e_iv is None or d_iv is None:
+                return None
+            if e_op is not None and not self._le_len(a, st, e_op, len_iv, len_key):
+                return None
+            if s_op is not None:
+                ks = a.operand_key(st, s_op)
+                ke = a.operand_key(st, e_op) if e_op is not None else len_key
+                if not (s_iv[1] <= e_iv[0] or (ks is not None and ke is not None and (ks == ke or ke in a.uppers(st, ks)[0]))):
+                    return None
+            if d_iv[1] + (e_iv[1] - s_iv[0]) <= len_iv[0]:
+                return "D-len: dest + count <= len"
+            if s_op is None and e_op is not None:
+                # `..C - x` copied to x: dest + count == C
+                ke, kd = a.operand_key(st, e_op), a.operand_key(st, args[2])
+                sy = st.sym.get(ke) if ke is not None else None
+                if sy is not None and sy[0] == "sub" and kd is not None and sy[2] == kd and sy[1] <= len_iv[0]:
+                    return "D-len: dest + count == %d <= len" % sy[1]
             return None
         if "chunks" in name and len(args) == 2:
             iv, _ = a.eval_operand(st, args[1])
